@@ -1,0 +1,21 @@
+//go:build verif
+
+package config
+
+// Contracts for the verif engine (/verif). Comment-only: no code is compiled
+// from this file with or without the tag.
+
+// The serve configuration takes its defaults from the `default` struct tags, never from the `dst` ones (C06:
+// the dst values select an in-memory database that is deleted on shutdown). Reflection and flag registration
+// are abstracted; what is proved is which tag is consulted.
+//@ func (*Config).Bind
+//@ props C06
+//@ abstract-calls .*
+//@ site call bind assert !dst
+//@ ensures calls("bind") == 1
+
+//@ func bind
+//@ props C06
+//@ abstract-calls .*
+//@ site call Get assert key == "dst" ==> dst
+//@ site call bind assert dst == caller_dst
